@@ -8,7 +8,7 @@ out=${1:-/tmp/seeded_all.log}
 nw=${2:-4}
 snap=/tmp/vsnap.$$
 mkdir -p $snap
-cp -r /verif/bin /verif/contracts /verif/prelude /verif/replay_tmpl /verif/known_findings.json /verif/properties.jsonl $snap/
+cp -r /verif/bin /verif/contracts /verif/prelude /verif/replay_tmpl /verif/bounded /verif/known_findings.json /verif/properties.jsonl $snap/
 ids=$(ls /verif/seeded)
 k=0
 pids=""
@@ -23,7 +23,7 @@ while [ $k -lt $nw ]; do
         part=$snap/part.$id
         echo "=== $id" > $part
         if git -C $wt apply /verif/seeded/$id/patch.diff 2>/dev/null; then
-          (cd $snap && bin/govc check -repo $wt -verif $snap -no-evidence -tier quick $p 2>&1 | grep "VIOLATION\|obligation failed\|quick:\|BROKEN\|KNOWN" | cut -c1-260 | head -8) >> $part
+          (cd $snap && bin/govc check -repo $wt -verif $snap -no-evidence -tier quick $p 2>&1 | grep "VIOLATION\|obligation failed\|bounded check failed\|quick:\|BROKEN\|KNOWN" | cut -c1-260 | head -8) >> $part
           git -C $wt checkout -q -- . ; git -C $wt clean -fdq
         else
           echo "patch does not apply" >> $part
